@@ -218,3 +218,93 @@ def _replay_after(f):
 
     i = f['input']
     return c11.one_case([tuple(o) for o in i['before']], i['cut_after_messages'], [tuple(o) for o in i['while_down']], i.get('routes_per_iteration', 25), [tuple(o) for o in i.get('after_resync', [])]) is None
+
+
+# ---------------------------------------------------------------------------------------------------------------------
+# labelled routes: the label stack is not part of the route's index, so "the same prefix announced again" is decided
+# elsewhere (the duplicate test of the cache): a later announce with ANOTHER label must reach the wire, the same one
+# need not; the peer's labels are compared with the labels ExaBGP reports
+def _label_session():
+    from . import harness as H
+    from exabgp.protocol.family import AFI, SAFI
+    from exabgp.rib.outgoing import OutgoingRIB
+
+    nb = H.neighbor(local_as=65000, peer_as=65000, families='ipv4 unicast; ipv4 nlri-mpls; ipv4 mpls-vpn;')
+    fams = ((1, 1), (1, 4), (1, 128))
+    neg, _, _ = H.negotiated(nb, H.peer_open_bytes(65000, 180, '9.9.9.9', H.std_caps(65000, families=fams)))
+    return OutgoingRIB(True, {(AFI.from_int(a), SAFI.from_int(s)) for a, s in fams}), neg
+
+
+LOPS = [('ann', 'label 100'), ('ann', 'label 200'), ('ann', 'label [ 100 300 ]'), ('ann', 'label 100 rd 65000:1'), ('ann', 'label 200 rd 65000:1'), ('wd', 'label 100'), ('wd', 'label 100 rd 65000:1'), ('flush',)]
+
+
+def label_case(seq):
+    from spec.update import decode_update
+
+    rib, neg = _label_session()
+    table, inp = {}, {'ops': [list(o) for o in seq]}
+
+    def flush():
+        for u in rib.updates(True):
+            if not hasattr(u, 'messages'):
+                continue
+            for m in u.messages(neg, True):
+                d = decode_update(bytes(m))
+                for afi, safi, pfx in d['mp_unreach']:
+                    for pid, lab, rd, bits, body in pfx:
+                        table.pop((safi, rd, bits, body), None)
+                for afi, safi, nh, pfx in d['mp_reach']:
+                    for pid, lab, rd, bits, body in pfx:
+                        table[(safi, rd, bits, body)] = tuple(lab)
+
+    try:
+        for op in seq:
+            if op[0] == 'flush':
+                flush()
+            elif op[0] == 'ann':
+                rib.add_to_rib(route('10.0.1.0/24', 10, extra=op[1]))
+            else:
+                rib.del_from_rib(route('10.0.1.0/24', 10, extra=op[1]))
+        flush()
+    except Exception as e:  # noqa
+        return {'what': f'RIB operation raised {type(e).__name__}: {str(e)[:200]}', 'input': inp}
+    want = {}
+    for r in rib.cached_routes():
+        n = r.nlri
+        rd = bytes(n.rd.pack_rd()) if int(n.safi) == 128 else None
+        want[(int(n.safi), rd, n.cidr.mask, bytes(n.cidr.pack_ip())[:3])] = tuple(int(x) for x in n.labels.labels)
+    if want != table:
+        return {'what': 'labelled routes: after the queue drained the labels the peer holds differ from the labels of the reported Adj-RIB-Out', 'input': inp, 'reported': str(sorted(want.items(), key=str)), 'peer': str(sorted(table.items(), key=str))}
+    # and the intended table: last announce not since withdrawn, per (family, rd)
+    model = {}
+    for op in seq:
+        if op[0] == 'flush':
+            continue
+        key = 128 if ' rd ' in op[1] else 4
+        if op[0] == 'ann':
+            model[key] = tuple(int(x) for x in op[1].replace('label', '').split(' rd ')[0].replace('[', '').replace(']', '').split())
+        else:
+            model.pop(key, None)
+    got = {k[0]: v for k, v in table.items()}
+    if got != model:
+        return {'what': 'labelled routes: the peer does not hold the intended labels (last announce not since withdrawn)', 'input': inp, 'intended': str(model), 'peer': str(got)}
+    return None
+
+
+@bounded('C04', 'label-changes')
+def label_changes(tier, seed):
+    depth = 3 if tier == 'quick' else 4
+    fails, evals = [], 0
+    for n in range(1, depth + 1):
+        for seq in itertools.product(LOPS, repeat=n):
+            evals += 1
+            f = label_case(seq)
+            if f:
+                fails.append(f)
+    fails.sort(key=lambda f: len(str(f['input'])))
+    return {'evaluations': evals, 'distinct_nontrivial': evals, 'exhaustive': True, 'bound': f'every sequence of length 1..{depth} over {len(LOPS)} operations on one prefix (labelled unicast and mpls-vpn: announce with label 100 / 200 / a stack of two, withdraw, flush) on a session negotiating both families; the labels decoded from the wire by the reference decoder', 'rule': 'one case = one operation sequence', 'samples': [{'ops': [['ann', 'label 100'], ['flush'], ['ann', 'label 200']]}], 'failures': fails[:20]}
+
+
+@_replayer('C04', 'label-changes')
+def _replay_labels(f):
+    return label_case([tuple(o) for o in f['input']['ops']]) is None
